@@ -9,6 +9,9 @@ Directory level: `d : Dir` is any directory as the metadata reader shows it (any
 `s : NodeSt` any state of the two caches Lookup consults (`Inv d s` holds for every state reachable by
 any history of Readdir / Lookup calls with or without go-fuse adopting the result: `history_reaches_inv`).
 Layer level: stacks of layers of any shape inside the stated domain (`LayerOK`).
+
+`readdir` models node.go after 545b9cc (whiteouts whose target Lookup never resolves are not listed);
+`readdirOld` is the listing before that repair, kept for the three documented counterexamples.
 -/
 import SV.Lemmas.Overlay
 
@@ -24,10 +27,16 @@ theorem history_reaches_inv (d : Dir) (ops : List Op) : Inv d (runSt d {} ops) :
 /-- For every history of Readdir / Lookup calls in any order (Lookup before or after the listing is
 memoised, before or after go-fuse cached the child), every answer is the answer a fresh node gives.
 (`stable` only forgets the attr mode/rdev fields of a whiteout answer, which go-fuse's `setEntryOut`
-overrides with the S_IFCHR StableAttr.) -/
-theorem history_independent (d : Dir) (ops : List Op) :
+overrides with the S_IFCHR StableAttr.  `Op.valid`: a LOOKUP carries a non-empty name.) -/
+theorem history_independent (d : Dir) (ops : List Op) (hv : ∀ o ∈ ops, o.valid = true) :
     (run d {} ops).map Ans.stable = ops.map (pureAns d) :=
-  run_stable ops (inv_init d)
+  run_stable ops hv (inv_init d)
+
+/-- The restriction to non-empty names is needed: with a child named exactly `.wh.`, `Lookup("")` finds
+that whiteout before the listing is memoised and answers ENOENT afterwards (the kernel never sends it). -/
+theorem history_independent_needs_valid :
+    ∃ d : Dir, (lookupSt d (readdirSt d {}).1 []).2.stable ≠ (lookupSt d {} []).2 :=
+  ⟨⟨false, 1, 2, S_IFDIR, 0, [], [⟨".wh.".toList, 3, S_IFREG, 0⟩]⟩, by decide⟩
 
 /-- `readdir` fails (EIO) only when an id is too large for an inode number. -/
 theorem readdir_total (d : Dir) (h : ∀ c ∈ d.children, c.id ≤ maxU32 - 3) : (readdir d).isSome :=
@@ -35,56 +44,28 @@ theorem readdir_total (d : Dir) (h : ∀ c ∈ d.children, c.id ≤ maxU32 - 3) 
 
 /-! ## Listing and lookup agree -/
 
-/-- The full statement: for every directory, every cache state and every name other than `.`, `..` and
-the state directory: listed ⇔ lookup succeeds, with the same inode and type. -/
-def ListingLookupAgreeFull : Prop :=
-  ∀ (d : Dir) (s : NodeSt) (ents : List DirEnt) (n : Str), NoDupNames d → Inv d s → readdir d = some ents →
-    Plain d n →
-    ((∃ e ∈ ents, e.name = n) ↔ (lookupSt d s n).2.ok = true) ∧
-    (∀ e ∈ ents, e.name = n → (lookupSt d s n).2.ino? = some e.ino ∧ (lookupSt d s n).2.stype = e.mode &&& S_IFMT)
-
-/-- Listing and lookup agree in every directory none of whose whiteouts targets a name that begins with
-`.wh.` or (in the root) a landmark name — for both memoisation states and any cached children. -/
-theorem listing_lookup_agree_partial (d : Dir) (s : NodeSt) (ents : List DirEnt) (n : Str)
-    (hnd : NoDupNames d) (hp : WhTargetsPlain d) (hi : Inv d s) (h : readdir d = some ents)
-    (hpl : Plain d n) :
+/-- Full strength: for every directory, every cache state (memoised or not, children cached or not) and
+every name other than `.`, `..` and the state directory of the root: listed ⇔ lookup succeeds, with the
+same inode and type. -/
+theorem listing_lookup_agree (d : Dir) (s : NodeSt) (ents : List DirEnt) (n : Str)
+    (hnd : NoDupNames d) (hi : Inv d s) (h : readdir d = some ents) (hpl : Plain d n) :
     ((readdirSt d s).2 = some ents) ∧
     ((∃ e ∈ ents, e.name = n) ↔ (lookupSt d s n).2.ok = true) ∧
     (∀ e ∈ ents, e.name = n →
       (lookupSt d s n).2.ino? = some e.ino ∧ (lookupSt d s n).2.stype = e.mode &&& S_IFMT) := by
-  have hs := lookupSt_eq_pure hi n
+  have hs := lookupSt_eq_pure hi n hpl.1
   have hok : (lookupSt d s n).2.ok = (lookupPure d n).ok := by rw [← hs, stable_ok]
   have hino : (lookupSt d s n).2.ino? = (lookupPure d n).ino? := by rw [← hs, stable_ino]
   have hty : (lookupSt d s n).2.stype = (lookupPure d n).stype := by rw [← hs, stable_stype]
   refine ⟨by rw [readdirSt_ans hi, h], ⟨?_, ?_⟩, ?_⟩
   · rintro ⟨e, he, hen⟩
-    rw [hok]; exact (listed_lookup hnd hp h hpl he hen).1
+    rw [hok]; exact (listed_lookup hnd h hpl he hen).1
   · intro hl
     rw [hok] at hl; exact lookup_listed h hpl hl
   · intro e he hen
-    rw [hino, hty]; exact (listed_lookup hnd hp h hpl he hen).2
+    rw [hino, hty]; exact (listed_lookup hnd h hpl he hen).2
 
-/-- The hypothesis is the weakest one: in a directory whose listing does not fail, agreement for all
-names holds exactly when no whiteout targets a `.wh.` name or (in the root) a landmark name. -/
-theorem listing_lookup_agree_iff (d : Dir) (ents : List DirEnt) (hnd : NoDupNames d)
-    (h : readdir d = some ents) :
-    (∀ n, Plain d n → ((∃ e ∈ ents, e.name = n) ↔ (lookupPure d n).ok = true)) ↔ WhTargetsPlain d := by
-  constructor
-  · intro hall c hc t hwo
-    cases hw : isWh t with
-    | true =>
-      obtain ⟨hpl, hl, hno⟩ := bad_target_listed_not_lookupable h hc hwo (Or.inl hw)
-      have := (hall t hpl).mp hl
-      rw [hno] at this; cases this
-    | false =>
-      cases hlm : (d.isRoot && isLandmark t) with
-      | false => exact ⟨rfl, rfl⟩
-      | true =>
-        obtain ⟨hpl, hl, hno⟩ := bad_target_listed_not_lookupable h hc hwo (Or.inr hlm)
-        have := (hall t hpl).mp hl
-        rw [hno] at this; cases this
-  · intro hp n hpl
-    exact ⟨fun ⟨e, he, hen⟩ => (listed_lookup hnd hp h hpl he hen).1, fun hl => lookup_listed h hpl hl⟩
+/-! ### The listing before 545b9cc (`readdirOld`): documented counterexamples -/
 
 /-- A directory `foo` holding the single whiteout `.wh..wh.foo` (a name beginning with `.wh.`). -/
 def cexDotWh : Dir :=
@@ -95,43 +76,52 @@ def cexLandmark : Dir :=
   ⟨true, 100, 1, S_IFDIR ||| 0o755, 0, [],
     [⟨".wh..prefetch.landmark".toList, 2, S_IFREG ||| 0o644, 0⟩, ⟨".no.prefetch.landmark".toList, 3, S_IFREG, 0⟩]⟩
 
-/-- The current code violates the full statement: `.wh..wh.foo` makes Readdir list `.wh.foo`, which Lookup
-refuses (ENOENT) in every cache state. -/
-theorem listing_lookup_agree_full_refuted : ¬ ListingLookupAgreeFull := by
-  intro hfull
-  have h := hfull cexDotWh {} _ ".wh.foo".toList (by unfold NoDupNames; decide) (inv_init _)
-    (by rfl : readdir cexDotWh = some [⟨dot, S_IFDIR, 0⟩, ⟨dotdot, S_IFDIR, 0⟩,
-      ⟨".wh.foo".toList, S_IFCHR, 429496729608⟩]) (by unfold Plain; decide)
-  have := h.1.mp ⟨⟨".wh.foo".toList, S_IFCHR, 429496729608⟩, by simp, rfl⟩
-  revert this; decide
+/-- A directory holding files named exactly `.wh.`, `.wh..` and `.wh...`. -/
+def cexEmptyDots : Dir :=
+  ⟨false, 100, 3, S_IFDIR ||| 0o755, 0, [],
+    [⟨".wh.".toList, 5, S_IFREG, 0⟩, ⟨".wh..".toList, 6, S_IFREG, 0⟩, ⟨".wh...".toList, 7, S_IFREG, 0⟩]⟩
 
-/-- Same for a whiteout of a landmark name in the root: `.prefetch.landmark` is listed as a character
-device and Lookup refuses it. -/
-theorem listing_lookup_landmark_whiteout_refuted :
-    (∃ e ∈ (readdir cexLandmark).getD [], e.name = prefetchLandmark) ∧
-    (lookupPure cexLandmark prefetchLandmark).ok = false ∧ Plain cexLandmark prefetchLandmark := by
-  refine ⟨⟨⟨prefetchLandmark, S_IFCHR, 429496729605⟩, by decide, rfl⟩, by decide, by unfold Plain; decide⟩
+/-- Before the repair `.wh..wh.foo` made Readdir list `.wh.foo`, which Lookup refuses; now nothing but the
+dot entries is listed. -/
+theorem old_readdir_dotwh_counterexample :
+    (∃ e ∈ (readdirOld cexDotWh).getD [], e.name = ".wh.foo".toList ∧ isWh e.name = true) ∧
+    (lookupPure cexDotWh ".wh.foo".toList).ok = false ∧ Plain cexDotWh ".wh.foo".toList ∧
+    readdir cexDotWh = some dotEnts := by
+  refine ⟨⟨⟨".wh.foo".toList, S_IFCHR, 429496729608⟩, by decide, rfl, rfl⟩, by decide, by unfold Plain; decide, by rfl⟩
+
+/-- Before the repair a root whiteout of a landmark name made Readdir list the landmark name in `/`. -/
+theorem old_readdir_landmark_counterexample :
+    (∃ e ∈ (readdirOld cexLandmark).getD [], e.name = prefetchLandmark) ∧
+    (lookupPure cexLandmark prefetchLandmark).ok = false ∧ Plain cexLandmark prefetchLandmark ∧
+    readdir cexLandmark = some dotEnts := by
+  refine ⟨⟨⟨prefetchLandmark, S_IFCHR, 429496729605⟩, by decide, rfl⟩, by decide, by unfold Plain; decide, by rfl⟩
+
+/-- Before the repair files named `.wh.`, `.wh..`, `.wh...` made Readdir list an entry with the empty name
+and character-device entries named `.` and `..`. -/
+theorem old_readdir_empty_dot_counterexample :
+    (∃ e ∈ (readdirOld cexEmptyDots).getD [], e.name = []) ∧
+    (∃ e ∈ (readdirOld cexEmptyDots).getD [], e.name = dot ∧ e.mode = S_IFCHR) ∧
+    (∃ e ∈ (readdirOld cexEmptyDots).getD [], e.name = dotdot ∧ e.mode = S_IFCHR) ∧
+    readdir cexEmptyDots = some dotEnts := by
+  refine ⟨⟨⟨[], S_IFCHR, 429496729608⟩, by decide, rfl⟩, ⟨⟨dot, S_IFCHR, 429496729609⟩, by decide, rfl, rfl⟩,
+    ⟨⟨dotdot, S_IFCHR, 429496729610⟩, by decide, rfl, rfl⟩, by rfl⟩
 
 /-! ## Marker files, landmarks and the TOC are hidden -/
 
-/-- The full statement: no listed name begins with `.wh.` (so neither whiteout files nor the opaque
-marker are listed) and no landmark is listed in the root. -/
-def MarkersHiddenFull : Prop :=
-  ∀ (d : Dir) (ents : List DirEnt) (e : DirEnt), readdir d = some ents → e ∈ ents →
-    isWh e.name = false ∧ e.name ≠ opaqueMarker ∧ (d.isRoot && isLandmark e.name) = false
-
-theorem markers_hidden_partial (d : Dir) (ents : List DirEnt) (e : DirEnt) (hp : WhTargetsPlain d)
+/-- Full strength: no listed name begins with `.wh.` (so neither whiteout files nor the opaque marker are
+ever listed) and no landmark name is listed in the root — for every directory. -/
+theorem markers_hidden (d : Dir) (ents : List DirEnt) (e : DirEnt)
     (h : readdir d = some ents) (he : e ∈ ents) :
     isWh e.name = false ∧ e.name ≠ opaqueMarker ∧ (d.isRoot && isLandmark e.name) = false :=
-  listed_names_clean hp h he
+  listed_names_clean h he
 
-/-- Without the hypothesis the statement fails on the current code (same witness as above). -/
-theorem markers_hidden_full_refuted : ¬ MarkersHiddenFull := by
-  intro hfull
-  have := (hfull cexDotWh _ ⟨".wh.foo".toList, S_IFCHR, 429496729608⟩
-    (by rfl : readdir cexDotWh = some [⟨dot, S_IFDIR, 0⟩, ⟨dotdot, S_IFDIR, 0⟩,
-      ⟨".wh.foo".toList, S_IFCHR, 429496729608⟩]) (by simp)).1
-  revert this; decide
+/-- Every listed entry is one of the two dot entries, a real child under its own name, or the whiteout of a
+name Lookup resolves (non-empty, not `.`/`..`, not a `.wh.` name, not a landmark name in the root). -/
+theorem listed_entries_wellformed (d : Dir) (ents : List DirEnt) (e : DirEnt)
+    (h : readdir d = some ents) (he : e ∈ ents) :
+    e ∈ dotEnts ∨ (∃ c ∈ d.children, c.name = e.name ∧ isNormal d.isRoot c.name = true) ∨
+      (badTarget d.isRoot e.name = false ∧ ∃ c ∈ d.children, c.name = mkWh e.name) :=
+  listed_wh_target_valid h he
 
 /-- And the hidden names are not reachable by Lookup either, in any cache state. -/
 theorem markers_not_lookupable (d : Dir) (s : NodeSt) (n : Str)
@@ -155,7 +145,7 @@ one of the `.wh.` entry; Lookup (any cache state) returns a whiteout node with t
 and its Getattr reports S_IFCHR with device 0/0.  A real `n` is listed as itself whether or not `.wh.n`
 exists; with neither, nothing named `n` is listed. -/
 theorem whiteout_translation (d : Dir) (s : NodeSt) (ents : List DirEnt) (n : Str)
-    (hnd : NoDupNames d) (hi : Inv d s) (h : readdir d = some ents)
+    (hnd : NoDupNames d) (hi : Inv d s) (h : readdir d = some ents) (hne : n ≠ [])
     (hd : isDots n = false) (hl : (d.isRoot && isLandmark n) = false) (hw : isWh n = false)
     (hs : (d.isRoot && n == stateDirName) = false) :
     match getChild d.children n, getChild d.children (mkWh n) with
@@ -174,10 +164,27 @@ theorem whiteout_translation (d : Dir) (s : NodeSt) (ents : List DirEnt) (n : St
     cases hg2 : getChild d.children (mkWh n) with
     | none => exact absent_not_listed h hd hw hg1 hg2
     | some w =>
-      obtain ⟨ino, h1, h2, h3, h4, h5⟩ := whiteout_listed hnd h hd hl hw hs hg2 hg1
+      obtain ⟨ino, h1, h2, h3, h4, h5⟩ := whiteout_listed hnd h hne hd hl hw hs hg2 hg1
       refine ⟨ino, h1, h2, h3, ?_, ?_⟩
-      · rw [lookupSt_eq_pure hi, h4]
-      · rw [← stable_getattr, lookupSt_eq_pure hi]; exact h5
+      · rw [lookupSt_eq_pure hi n hne, h4]
+      · rw [← stable_getattr, lookupSt_eq_pure hi n hne]; exact h5
+
+/-- A whiteout `.wh.t` whose target `t` Lookup never resolves (the empty name, `.`, `..`, a name that itself
+begins with `.wh.`, a landmark name in the root) yields no entry: whatever is listed under the name `t` is
+one of the two dot entries or a real child named `t` — and for a `.wh.` name or a root landmark name,
+nothing at all. -/
+theorem whiteout_of_unresolvable_target_hidden (d : Dir) (ents : List DirEnt) (t : Str)
+    (h : readdir d = some ents) (hb : badTarget d.isRoot t = true) :
+    (∀ e ∈ ents, e.name = t →
+      e ∈ dotEnts ∨ ∃ c ∈ d.children, c.name = t ∧ isNormal d.isRoot c.name = true) ∧
+    (isWh t = true ∨ (d.isRoot && isLandmark t) = true → ∀ e ∈ ents, e.name ≠ t) := by
+  refine ⟨fun e he hen => unresolvable_target_not_listed h hb he hen, ?_⟩
+  intro hwl e he hen
+  obtain ⟨h1, _, h3⟩ := listed_names_clean h he
+  rw [hen] at h1 h3
+  rcases hwl with hw | hl
+  · rw [h1] at hw; cases hw
+  · rw [h3] at hl; cases hl
 
 /-! ## Opaque directories, all three modes -/
 
@@ -222,7 +229,7 @@ theorem listing_inodes_unique (d : Dir) (ents : List DirEnt) (h : readdir d = so
       inodeOfID d.base c1.id = some e1.ino ∧ inodeOfID d.base c2.id = some e2.ino := by
   have src : ∀ e ∈ ents, e ∉ dotEnts → ∃ c ∈ d.children, inodeOfID d.base c.id = some e.ino := by
     intro e he hd
-    rcases (mem_readdir h e).mp he with hdot | ⟨c, hc, _, hce⟩ | ⟨c, hc, t, _, _, hce⟩
+    rcases (mem_readdir h e).mp he with hdot | ⟨c, hc, _, hce⟩ | ⟨c, hc, t, _, _, _, hce⟩
     · exact absurd hdot hd
     · exact ⟨c, hc, (normalEnt_eq hce).2.2⟩
     · exact ⟨c, hc, (whEnt_eq hce).2.2⟩
@@ -254,14 +261,15 @@ theorem stat_json_wellformed (l : LayerInfo) (h : 0 < l.size) :
 
 /-! ## Composition: overlay of the served layers = OCI application of the layer tars -/
 
-/-- Per directory (name level): for every stack of layer directories in the domain (top first) and every
-name, looking the name up through the served directories with the overlayfs rules gives the served form
-of what OCI application leaves at that name, and that is the child of the applied directory. -/
-theorem overlay_equals_oci_dir (om : OpaqueMode) (kx : KX) (hc : compat om kx = true) (tl : List DirT)
-    (hok : OkDirs kx tl) (x : Str) :
-    descend kx x (tl.map (serveDir om)) = (sub x tl).serve om ∧
+/-- Per directory (name level): for every stack of layer directories in the domain (top first; `isRoot`
+says whether they are the — landmark-stripped — roots) and every name, looking the name up through the
+served directories with the overlayfs rules gives the served form of what OCI application leaves at that
+name, and that is the child of the applied directory. -/
+theorem overlay_equals_oci_dir (om : OpaqueMode) (kx : KX) (hc : compat om kx = true) (isRoot : Bool)
+    (tl : List DirT) (hok : OkDirs kx tl) (hlm : NoLandmarkKids isRoot tl) (x : Str) :
+    descend kx x (tl.map (serveDir om isRoot)) = (sub x tl).serve om ∧
     lookupKid (kidsOf (appliedOf tl)) x = (sub x tl).tree :=
-  ⟨descend_serve hc x hok, applied_child x hok⟩
+  ⟨descend_serve hc isRoot x hok hlm, applied_child x hok⟩
 
 /-- Whole trees: for every non-empty stack of layers in the domain, every opaque mode that covers the
 xattr namespace the kernel reads, the overlay mount of the served layers and the root filesystem obtained
@@ -273,7 +281,7 @@ theorem overlay_equals_oci (om : OpaqueMode) (kx : KX) (hc : compat om kx = true
   rw [ociRootFs_eq layers hne]
   unfold overlayMerge
   rw [served_stack]
-  exact ovl_eq_applied hc p (layers_ok hok)
+  exact ovl_eq_applied hc p (layers_ok hok) (layers_noLandmark layers)
 
 /-- The `serve` of the composition theorem is the directory-level `readdir` (the function compared with
 node.go call by call): at every directory of a layer tree, root or not, a name other than `.`/`..` is listed
@@ -282,7 +290,7 @@ theorem serve_is_readdir (om : OpaqueMode) (isRoot : Bool) (base : Nat) (a : Att
     (ents : List DirEnt) (h : readdir (dirOfTree isRoot base a kids) = some ents) (x : Str)
     (hx : isDots x = false) :
     (∃ e ∈ ents, e.name = x) ↔
-      (lookupKid (serveKids om (servedKidsOf isRoot kids) (servedKidsOf isRoot kids)) x).isSome = true :=
+      (lookupKid (serveKids om isRoot (servedKidsOf isRoot kids) (servedKidsOf isRoot kids)) x).isSome = true :=
   serve_matches_readdir om isRoot base a kids h x hx
 
 /-! ## The hypotheses of `overlay_equals_oci` are needed -/
@@ -348,7 +356,6 @@ def exDir : Dir :=
      ⟨opaqueMarker, 5, S_IFREG, 0⟩, ⟨noPrefetchLandmark, 6, S_IFREG, 0⟩]⟩
 
 example : NoDupNames exDir := by unfold NoDupNames; decide
-example : WhTargetsPlain exDir := whTargetsPlain_of_B (by decide)
 example : readdir exDir = some [⟨dot, S_IFDIR, 0⟩, ⟨dotdot, S_IFDIR, 0⟩, ⟨"a".toList, S_IFREG ||| 0o644, 30064771077⟩,
     ⟨"gone".toList, S_IFCHR, 30064771078⟩] := by rfl
 example : lookupPure exDir "gone".toList = .whiteout 3 S_IFCHR 30064771078 0 := by decide
